@@ -33,9 +33,16 @@
      `SpecRT.witness_dot5` (the symbol `.5` prints as `.5`, a number in the grammar), `witness_quote`,
      `witness_hash`, `witness_plus_i`, `witness_keyword_digit`.  Tie: the `specrd` operations run the
      specification reader on texts written by the real printer.
-  Not covered by the theorem: float leaves outside the exactness window in the default build (the
-  property asks only for C05 accuracy there, proved in Props/C05 as `C05_accuracy`); they are carried by
-  the correspondence and the oracle.
+   * floats that are NOT exactly readable (LexprModel/Proofs/FloatApprox*.lean, imported here): outside the
+     exactness window of the default build the property only asks for the C05 accuracy, and that is what is
+     proved — `atomRT_float_approx` (the shortest form of every finite double, ryu as a specified parameter
+     without any window, is read back under every option set as a float within 2^-50 relative + 2^-1073
+     absolute, never an error, integer or symbol), `C01_roundtrip_approx` / `C02_roundtrip_approx` (the
+     whole value reads back as a value of the same shape with identical leaves except such floats, all
+     sources), witness `C01_roundtrip_approx_strict` (`(a 1e-23 . #(2.5))` reads back close but not equal).
+     The one extra hypothesis in the default build, `InRange` (the decimal does not exceed f64::MAX), is
+     needed: `1.7976931348623158e308` rounds to f64::MAX yet is rejected (known finding C05); the shortest
+     form of every finite double satisfies it.
   Also proved here: all print entry points produce the same bytes, no folding in the default pairing.
 -/
 import LexprModel.Props.C07
@@ -44,6 +51,7 @@ import LexprModel.Proofs.ListRTGlue
 import LexprModel.Proofs.Decimals
 import LexprModel.Proofs.FullRT
 import LexprModel.Proofs.SpecRTExec
+import LexprModel.Proofs.FloatApproxRT
 namespace Lexpr
 
 /-- **C01_roundtrip** (proved for every value without floats and byte vectors; see the header):
